@@ -17,6 +17,7 @@ import elementpath.aliases as ta
 from elementpath.exceptions import ElementPathValueError
 from elementpath.datatypes import AnyAtomicType
 from elementpath.sequences import xlist
+from elementpath.xpath_nodes import XPathNode
 from elementpath.helpers import split_function_test
 from elementpath.sequence_types import match_sequence_type
 from elementpath.xpath_context import XPathSchemaContext
@@ -199,6 +200,11 @@ class XPathMap(XPathFunction):
                  context: ta.ContextType = None) -> ta.ValueType:
         if len(args) == 1 and isinstance(args[0], list) and len(args[0]) == 1:
             args = args[0][0],
+        if len(args) == 1 and isinstance(args[0], (XPathNode, self.registry.array_token)):
+            # Function conversion rules: the key is atomized
+            values = [x for x in self.atomize_item(args[0])]
+            if len(values) == 1:
+                args = values[0],
         if len(args) != 1 or not isinstance(args[0], AnyAtomicType):
             if isinstance(context, XPathSchemaContext):
                 return []
